@@ -265,6 +265,129 @@ class SimFS(object):
             raise FileNotFoundError(2, "No such file or directory", p)
         del self.files[p]
 
+    unlink = remove
+
+    def rename(self, src, dst, *a, **kw):
+        s_, d_ = self.norm(src), self.norm(dst)
+        if not self.inside(s_) and not self.inside(d_):
+            return _real_os.rename(src, dst)
+        self.op("rename", s_)
+        if posixpath.dirname(d_) not in self.dirs:
+            raise FileNotFoundError(2, "No such file or directory", d_)
+        if s_ in self.files:
+            if d_ in self.dirs:
+                raise IsADirectoryError(21, "Is a directory", d_)
+            self.files[d_] = self.files.pop(s_)
+            return
+        if s_ in self.dirs:
+            if d_ in self.files:
+                raise NotADirectoryError(20, "Not a directory", d_)
+            pre = s_ + "/"
+            for q in [q for q in self.files if q.startswith(pre)]:
+                self.files[d_ + q[len(s_) :]] = self.files.pop(q)
+            for q in [q for q in self.dirs if q == s_ or q.startswith(pre)]:
+                self.dirs.discard(q)
+                self.dirs.add(d_ + q[len(s_) :])
+            return
+        raise FileNotFoundError(2, "No such file or directory", s_)
+
+    replace = rename
+
+    def rmdir(self, path):
+        p = self.norm(path)
+        self.op("rmdir", p)
+        if p not in self.dirs:
+            raise FileNotFoundError(2, "No such file or directory", p)
+        pre = p + "/"
+        if any(q.startswith(pre) for q in list(self.files) + list(self.dirs)):
+            raise OSError(39, "Directory not empty", p)
+        self.dirs.discard(p)
+
+    def stat(self, path, *a, **kw):
+        if not self.inside(path):
+            return _real_os.stat(path, *a, **kw)
+        p = self.norm(path)
+        self.op("stat", p)
+        if p in self.files:
+            return _real_os.stat_result((0o100644, 0, 0, 1, 0, 0, len(self.files[p]), 0, 0, 0))
+        if p in self.dirs:
+            return _real_os.stat_result((0o040755, 0, 0, 1, 0, 0, 4096, 0, 0, 0))
+        raise FileNotFoundError(2, "No such file or directory", p)
+
+    def walk(self, top, topdown=True, *a, **kw):
+        if not self.inside(top):
+            for t in _real_os.walk(top, topdown, *a, **kw):
+                yield t
+            return
+        p = self.norm(top)
+        if p not in self.dirs:
+            return
+        names = self.listdir(p)
+        ds = [n for n in names if posixpath.join(p, n) in self.dirs]
+        fs_ = [n for n in names if posixpath.join(p, n) in self.files]
+        if topdown:
+            yield p, ds, fs_
+        for d in ds:
+            for t in self.walk(posixpath.join(p, d), topdown):
+                yield t
+        if not topdown:
+            yield p, ds, fs_
+
+    def glob(self, pattern, *a, **kw):
+        """glob.glob over the simulated tree (``*``, ``?``, ``[..]`` per path
+        component; ``**`` with recursive=True)."""
+        import fnmatch
+        import glob as _real_glob
+
+        if not self.inside(posixpath.normpath(str(pattern).split("*")[0].split("?")[0].split("[")[0] or ".")) and not str(pattern).startswith(self.root):
+            return _real_glob.glob(pattern, *a, **kw)
+        self.op("glob", str(pattern))
+        parts = self.norm(pattern).split("/")
+        cur = ["/".join(parts[:1]) or "/"]
+        for comp in parts[1:]:
+            nxt = []
+            for base in cur:
+                if comp == "**" and kw.get("recursive"):
+                    nxt.append(base)
+                    pre = base.rstrip("/") + "/"
+                    nxt += sorted(q for q in self.dirs if q.startswith(pre))
+                elif any(ch in comp for ch in "*?["):
+                    if base in self.dirs or base == "":
+                        pre = base.rstrip("/") + "/"
+                        for n in self.listdir(base) if base in self.dirs else []:
+                            if fnmatch.fnmatchcase(n, comp):
+                                nxt.append(pre + n)
+                else:
+                    cand = (base.rstrip("/") + "/" + comp) if base != "/" else "/" + comp
+                    if cand in self.files or cand in self.dirs or not self.inside(cand):
+                        nxt.append(cand)
+            cur = nxt
+        return [q for q in cur if q in self.files or q in self.dirs]
+
+    def rmtree(self, path, ignore_errors=False, *a, **kw):
+        p = self.norm(path)
+        if not self.inside(p):
+            import shutil as _sh
+
+            return _sh.rmtree(path, ignore_errors, *a, **kw)
+        self.op("rmtree", p)
+        if p not in self.dirs:
+            if ignore_errors:
+                return
+            raise FileNotFoundError(2, "No such file or directory", p)
+        pre = p + "/"
+        for q in [q for q in self.files if q.startswith(pre)]:
+            del self.files[q]
+        for q in [q for q in self.dirs if q == p or q.startswith(pre)]:
+            self.dirs.discard(q)
+
+    def copyfile(self, src, dst, *a, **kw):
+        with self.open(src, "rb") as f:
+            data = f.read()
+        with self.open(dst, "wb") as g:
+            g.write(data)
+        return dst
+
     # ---- harness helpers (not seam functions; no events)
     def put(self, path, data):
         p = self.norm(path)
@@ -297,9 +420,39 @@ class OsShim(object):
         self._fs = fs
         self.path = _PathShim(fs)
         self.listdir, self.makedirs, self.mkdir, self.remove = fs.listdir, fs.makedirs, fs.mkdir, fs.remove
+        self.unlink, self.rename, self.replace, self.rmdir, self.stat, self.walk = fs.unlink, fs.rename, fs.replace, fs.rmdir, fs.stat, fs.walk
 
     def __getattr__(self, name):
         return getattr(_real_os, name)
+
+
+class GlobShim(object):
+    """Stands in for a ``glob`` module attribute of a patched module."""
+
+    def __init__(self, fs):
+        self._fs = fs
+        self.glob = fs.glob
+
+    def iglob(self, *a, **kw):
+        return iter(self._fs.glob(*a, **kw))
+
+    def __getattr__(self, name):
+        import glob as _g
+
+        return getattr(_g, name)
+
+
+class ShutilShim(object):
+    """Stands in for a ``shutil`` module attribute of a patched module."""
+
+    def __init__(self, fs):
+        self._fs = fs
+        self.rmtree, self.move, self.copyfile, self.copy, self.copy2 = fs.rmtree, fs.rename, fs.copyfile, fs.copyfile, fs.copyfile
+
+    def __getattr__(self, name):
+        import shutil as _s
+
+        return getattr(_s, name)
 
 
 class TimeShim(object):
@@ -355,6 +508,16 @@ def installed(fs, modules, clock=None, extra=None):
                     mod.time = clock
                 else:
                     mod.__dict__[n] = (extra or {})[n]
+            # a module that has the file-system seam and (now or after an edit)
+            # also imports glob / shutil gets those on the simulated tree too
+            if "os" in names or "open" in names:
+                import glob as _g
+                import shutil as _sh
+
+                for n, real, mk in (("glob", _g, GlobShim), ("shutil", _sh, ShutilShim)):
+                    if mod.__dict__.get(n) is real:
+                        saved.append((mod, n, True, real))
+                        mod.__dict__[n] = mk(fs)
         yield shim
     finally:
         for mod, n, had, old in reversed(saved):
